@@ -19,7 +19,8 @@ fn main() {
     }
     std::env::set_var("VERIF_NO_EVIDENCE", "1");
     let ctx = Ctx::from_env("SELFTEST");
-    ctx.universe_isolated("isolation", 100, 0.5, 512, |idx, l| {
+    // (1.5 s per case, 6 s on the confirmation run: generous enough for a cold start right after a restore)
+    ctx.universe_isolated("isolation", 100, 1.5, 512, |idx, l| {
         l.states(1);
         match idx {
             37 => std::process::abort(),
